@@ -133,6 +133,29 @@ def scheme(vk, cfg):
         from felupe.quadrature._gauss_lobatto import gauss_lobatto
 
         vk.real(gauss_lobatto)
+    # plot(plotter=..., weighted=...) draws the rule into a given plotter: the scheme is outside its frame (all clauses
+    # below are stated on q AFTER these calls), every point is drawn once with size point_size (x weight / max weight)
+    if hasattr(type(q), "plot") and np.ndim(q.points) == 2:
+        vk.real(type(q).plot)
+
+        class _Plotter:
+            def __init__(s):
+                s.calls = []
+
+            def add_points(s, *a, **kw):
+                s.calls.append((a, kw))
+
+        pp, wp = np.array(q.points, dtype=float), np.array(q.weights, dtype=float)
+        for weighted in (False, True):
+            pl = _Plotter()
+            with symnp.native():
+                ret = q.plot(plotter=pl, weighted=weighted, point_size=10.0)
+            same = bool(np.array_equal(pp, np.asarray(q.points, dtype=float)) and np.array_equal(wp, np.asarray(q.weights, dtype=float)))
+            vk.ensures_true(f"plot(weighted={weighted})/frame: points and weights of the scheme unchanged", same, "bitwise comparison with the snapshot taken before the call", replay=None if same else {"confirmed": True, "kind": "ground", "point": {"scheme": str(cfg), "call": f"q.plot(plotter=..., weighted={weighted})"}, "expected": wp.tolist(), "actual": np.asarray(q.weights, dtype=float).tolist()})
+            want = 10.0 * (wp / wp.max() if weighted else np.ones(len(wp)))
+            got = [kw.get("point_size") for a, kw in pl.calls]
+            ok = ret is pl and len(got) == len(wp) and all(g is not None and abs(float(g) - w_) <= 1e-12 * 10 for g, w_ in zip(got, want)) and all(np.allclose(np.asarray(kw.get("points"), dtype=float).ravel()[: pp.shape[1]], pp[k]) for k, (a, kw) in enumerate(pl.calls))
+            vk.ensures_true(f"plot(weighted={weighted}): every point drawn once at its coordinates with size point_size{' * weight / max(weights)' if weighted else ''}, the given plotter is returned", bool(ok), f"{len(got)} points drawn")
     inv_obligations = None
     if hasattr(type(q), "inv"):
         # inv() (used by tools.extrapolate): reciprocal points, same weights, and the scheme itself is outside its
